@@ -6,6 +6,10 @@ props = [json.loads(l) for l in open(os.path.join(V, "properties.jsonl"))]
 
 EVAL_NOTE = "trusted: TLC; the renderer's canonical layout and path->line map; H2 hook events (emitted after each VM state change in the single evaluator goroutine); program families are bounded (sizes in the evidence)"
 CHECKS = {
+ "C04": dict(
+   technique="TLA+ scanner state machine (ZnLex), numeric-form DFA with W-method suite (ZnNum) and interval-table normal form (ZnIdRange) model-checked by TLC; TLC-enumerated strings replayed through zh.NextToken and exec.MatchIDType; recorded IdInRange answers for all code points validated by TLC",
+   level="Numeric: TLC enumerates every string of length <= 5 (thorough 6) over the 11 character classes plus the W-method suite P.Sigma^{<=3}.W of the 13-state minimal DFA (complete for recognisers with up to two extra states; W and the access strings are verified by TLC) - 336k distinct strings, each classified number/name/reject and, for numbers, compared bit-exactly with the correctly rounded double of the decimal the spec denotes. Tokenisation: every string <= 3 (thorough 4) over a 27-symbol alphabet and <= 4-6 over four reduced alphabets is scanned by the spec machine (progress, span, coverage and determinism invariants) and the token kinds and spans must equal zh.NextToken's. Alphabet: IdInRange is asked for all 0x110000 code points; TLC checks the run-length encoding equals the normal form of the table in id_range.go.",
+   note="trusted: TLC; math/big for decimal->double rounding; the concrete representatives per symbol class; contexts the manual is silent about are checked for totality only", ref="5 C04"),
  "C11": dict(
    technique="TLA+ fold spec with nondeterministic iteration order (ZnMapIter: confluence of every range-over-map loop kind, deviations refuted) and ZnDictEq (contents-only equality vectors) model-checked by TLC; static go/types inventory of range-over-map sites bound to the spec's site table; N-fold repeated execution of TLC-generated programs",
    level="TLC explores all iteration orders of each modelled loop kind over all maps of <=3 entries and checks the result equals the canonical order's; the two non-confluent loop shapes found in the original code are kept as named deviations and must be refuted in every run. A go/types pass lists every range over a map in pkg/ and stdlib/ with a hash of the loop text: it must equal the spec's site table (otherwise exit 2, unmodelled). All 6241 ordered pairs of small dictionaries in all insertion orders are compared with 为/不为/==//=/包含/寻找 (plain and nested) 32 (thorough 256) times each: every repetition must give the contents-only answer; further order-sensitive-looking programs (JSON parse order, object defaults, error messages) are repeated 128-1024 times and must be one behaviour.",
